@@ -453,7 +453,46 @@ def rule_json_bytes(ctx):
         ctx.ob(f"{q} passes use_binary_hex_encoding and the WAMP codec class", "use_binary_hex_encoding" in kws and "cls" in kws, f"keywords {kws}", f.loc())
 
 
+def rule_role_features(ctx):
+    """HELLO / WELCOME marshal(): the announced role features.  Cell-wise over one role object holding a feature set to True, one set to False,
+    one left None, a private attribute and the ROLE name: exactly the True and the False feature are emitted, with their values -- an
+    explicitly disabled feature (False) must survive the round trip (parse() gives it back as False, absence as None)."""
+    from ..core.tiny import Tiny, Sym
+    ctx.rule("C03.6-role-features-marshalled")
+    for cname in ("Hello", "Welcome"):
+        fn = ctx.program.func(f"autobahn.wamp.message.{cname}.marshal")
+        ctx.analysed(fn)
+        body = [x for x in fn.node.body if not (isinstance(x, ast.Expr) and isinstance(x.value, ast.Constant))]
+        role = Sym("role-features")
+        feats = {"ROLE": "callee", "_private": 1, "on": True, "off": False, "unset": None}
+        role.attrs.update(feats)
+        role.attrs["__dict__"] = dict(feats)
+        env = {"self": Sym("message"), "self.roles": {"callee": role}, f"{cname}.MESSAGE_TYPE": 1}
+        for x in ast.walk(fn.node):
+            if isinstance(x, ast.Attribute) and isinstance(x.value, ast.Name) and x.value.id == "self" and isinstance(x.ctx, ast.Load):
+                env.setdefault(f"self.{x.attr}", None)
+
+        def default(f_, a_, k_=None):
+            if f_ == "getattr" and len(a_) >= 2 and a_[0] is role:
+                return feats.get(a_[1], a_[2] if len(a_) > 2 else None)
+            if f_ == "hasattr" and len(a_) == 2 and a_[0] is role:
+                return a_[1] in feats
+            return Sym(f"<{f_}>")
+        try:
+            t = Tiny(env, default_call=default, opaque_globals=True)
+            r = t.run(body)
+        except AnalysisError as e:
+            raise AnalysisError(f"[C03.6-role-features-marshalled] {cname}.marshal outside the modelled subset: {e}")
+        got = None
+        if r[0] == "return" and isinstance(r[1], list) and r[1] and isinstance(r[1][-1], dict):
+            got = r[1][-1].get("roles")
+        want = {"callee": {"features": {"on": True, "off": False}}}
+        ctx.ob(f"{cname}.marshal: every feature that is set (True or False) is announced with its value; unset (None), private and ROLE attributes are not [1 role, 5 attributes]",
+               got == want, f"roles emitted: {got}, expected {want}", fn.loc())
+
+
 def run(ctx):
+    rule_role_features(ctx)
     rule_tables(ctx)
     rule_type_map(ctx)
     rule_batching(ctx)
